@@ -2,7 +2,8 @@ import Clikit.Drv.Util
 import Clikit.Model.Output
 /-!
 Driver entries of the C11 models:
-`c11.sgr` (a style through one of the three ways of supplying it; field `spec`: the codes the
+`c11.sgr` (a style through one of the three ways of supplying it - route `ctag`: passed for a single call while
+ANOTHER style is registered under its tag; field `spec`: the codes the
 specification demands), `c11.render` (a message on a formatter), `c11.write` (one writing method),
 `c11.scopes` (a program of indentation scopes).  `c11.render` / `c11.write` with `"wf": true` also
 answer the deciders of the hypotheses of the message theorems (field `wf`).
@@ -177,6 +178,24 @@ def handle (m : String) (j : Json) : Option (R Json) :=
           | .ok reg' =>
             let msg := '<' :: (tag ++ '>' :: (text ++ '<' :: '/' :: (tag ++ ['>'])))
             return withSpec st (jRender (ansiFormat (registryResolver reg') [] msg none))
+      | "ctag" =>
+        -- a style passed for a single call that carries a tag; `reg`: the style registered under that tag
+        -- (another one, or none); `base`: what the formatter was built with
+        let base ← fStr j "base"
+        let regSt ← optStyleOf j "reg"
+        let baseReg ← (match base with
+          | "pastel" => pure pastelRegistry
+          | "default" => pure defaultRegistry
+          | _ => throw s!"unknown base {base}" : R (Except Err Registry))
+        match baseReg with
+        | .error e => return withSpec st (jErr e)
+        | .ok reg =>
+          let reg2 : Except Err Registry := match regSt with
+            | none => .ok reg
+            | some r => register reg r
+          match reg2 with
+          | .error e => return withSpec st (jErr e)
+          | .ok reg' => return withSpec st (jRender (ansiFormat (registryResolver reg') [] text (some st)))
       | _ => throw s!"unknown route {route}"
   | "c11.render" => some do
       let msg ← fChars j "msg"
